@@ -117,12 +117,23 @@ def run(ctx):
         base = strip_copy(v)
         return isinstance(base, ast.Subscript) and is_self_attr(base.value, "live_points")
 
-    W = fa.one(fa.find(is_worst), "`<worst> = self.live_points[<i>]` statement")
-    wst = fa.stmt(W)
-    worst = wst.targets[0].id
-    base = strip_copy(wst.value)
+    Ws = fa.find(is_worst)
+    if Ws:
+        W = fa.one(Ws, "`<worst> = self.live_points[<i>]` statement")
+        wst = fa.stmt(W)
+        worst = wst.targets[0].id
+        wexpr = wst.value
+    else:
+        # no local: the removed point is whatever is recorded (`nested_samples.append(self.live_points[0].copy())`); an
+        # uncopied alias `w = self.live_points[0]` has been substituted by the program model and reads the same way
+        W, ac0 = fa.one(fa.find_calls("self.nested_samples.append"), "`<worst> = self.live_points[<i>]` statement or a direct nested_samples.append(self.live_points[<i>]...)")
+        wst = fa.stmt(W)
+        ctx.require(len(ac0.args) == 1 and isinstance(strip_copy(ac0.args[0]), ast.Subscript) and is_self_attr(strip_copy(ac0.args[0]).value, "live_points"), "consume_sample: the removed point is neither a local read from self.live_points nor recorded directly from it")
+        wexpr = ac0.args[0]
+        worst = src(strip_copy(wexpr))
+    base = strip_copy(wexpr)
     ctx.ob("R-ORDER", "C01.2", f, "removed point is live_points[0] (the minimum of the ascending store)", const(base.slice, 0), f"`{src(wst)}`", node=wst)
-    ctx.ob("R-ORDER", "C01.2", f, "removed point is copied out of the live array before the block shift overwrites slot 0", base is not wst.value, f"`{src(wst)}`", node=wst)
+    ctx.ob("R-ORDER", "C01.2", f, "removed point is copied out of the live array before the block shift overwrites slot 0", base is not wexpr, f"`{src(wst)}`", node=wst)
 
     L = fa.find(lambda s: isinstance(s, ast.Assign) and any(is_self_attr(t, "logLmin") for t in s.targets))
     L = fa.one(L, "assignment to self.logLmin")
@@ -134,7 +145,7 @@ def run(ctx):
            f"`{src(icall)}`", node=icall)
     A_ = fa.find_calls("self.nested_samples.append")
     A, acall = fa.one(A_, "self.nested_samples.append call")
-    ctx.ob("R-ORDER", "C01.2", f, "nested_samples.append receives the removed point", len(acall.args) == 1 and src(acall.args[0]) == worst, f"`{src(acall)}`", node=acall)
+    ctx.ob("R-ORDER", "C01.2", f, "nested_samples.append receives the removed point", len(acall.args) == 1 and src(strip_copy(acall.args[0])) == worst, f"`{src(acall)}`", node=acall)
     T = fa.one(fa.find(lambda s: isinstance(s, ast.AugAssign) and is_self_attr(s.target, "iteration")), "self.iteration += 1")
     tst = fa.stmt(T)
     ctx.ob("R-ORDER", "C01.2", f, "iteration advances by exactly one", isinstance(tst.op, ast.Add) and const(tst.value, 1), f"`{src(tst)}`", node=tst)
@@ -151,7 +162,7 @@ def run(ctx):
     idx_ok = len(xcall.args) == 1 and ((isinstance(nst, ast.Assign) and isinstance(nst.targets[0], ast.Name) and src(xcall.args[0]) == nst.targets[0].id) or xcall.args[0] is ncall)
     ctx.ob("R-ORDER", "C01.2", f, "recorded insertion index is the value returned by insert_live_point", idx_ok, f"`{fa.text(N)}` ; `{src(xcall)}`", node=xcall)
 
-    chain = [("read worst", W), ("logLmin", L), ("state.increment", I), ("nested_samples.append", A), ("iteration += 1", T), ("it := iteration", P), ("insert_live_point", N), ("insertion_indices.append", X)]
+    chain = ([("read worst", W)] if Ws else []) + [("logLmin", L), ("state.increment", I), ("nested_samples.append", A), ("iteration += 1", T), ("it := iteration", P), ("insert_live_point", N), ("insertion_indices.append", X)]
     for (na, a), (nb, b) in zip(chain, chain[1:]):
         if a == b:  # one statement does both (argument evaluation precedes the call)
             continue
